@@ -8,10 +8,16 @@ var initTime = time.Now().AddDate(-1, -1, -1)
 // Now returns a relative time duration since initTime, which is not important.
 // The caller only needs to care about the relative value.
 func Now() time.Duration {
+	if d, ok := verifClock(); ok {
+		return d
+	}
 	return time.Since(initTime)
 }
 
 // Since returns a diff since given d.
 func Since(d time.Duration) time.Duration {
+	if now, ok := verifClock(); ok {
+		return now - d
+	}
 	return time.Since(initTime) - d
 }
